@@ -183,6 +183,8 @@ pub struct EvilStats {
     pub bytes_over_credit: u64,
     pub max_tasks: usize,
     pub zero_credit_buffered: u32,
+    /// Hostile items that actually put frames on the wire (others were not applicable to the state).
+    pub applied: u32,
 }
 
 type R<T> = Result<T, (String, String)>;
@@ -604,7 +606,12 @@ pub async fn hostile(case: &Case) -> (Option<(String, String)>, EvilStats, u64) 
         settle().await;
 
         for e in &case.evil {
-            inject(&mut conv, e, &run, &mut st).await?;
+            let before = link.sent(1);
+            let r = inject(&mut conv, e, &run, &mut st).await;
+            if link.sent(1) > before {
+                st.applied += 1;
+            }
+            r?;
             settle().await;
         }
         tokio::time::sleep(std::time::Duration::from_millis(20)).await;
@@ -806,11 +813,11 @@ pub fn run_case(case: &Case) -> Outcome {
         let name = format!("{e:?}");
         out.class(format!("evil:{}", name.split(|c: char| !c.is_alphanumeric()).next().unwrap_or("")));
     }
-    out.nontrivial = st.reached_with_open_port;
+    out.nontrivial = st.reached_with_open_port && st.applied >= 1 && (st.terminated || st.probe_done);
     out
 }
 
-pub const RULE: &str = "cases = (real Cfg, reference peer cfg/version, valid conversation prefix in C09's script language that always opens a port in each direction, local API state {listener dropped, client dropped, connect pending, send blocked on credits}, 1-3 hostile items out of 24 kinds: raw bytes, truncated messages, wrong-state messages, duplicates, unknown ports/codes, over-chunk, over-credit streams, credit overflow, request floods, oversized port batches); oracles = no panic anywhere (process panic hook), dispatcher either still runs and a fresh request + data echo works, or it ended with an error and every local send/recv/connect/accept/pending future completes with an error within 600 virtual s; over-credit data beyond receive_buffer + one chunk and more than connect_queue unanswered requests must terminate the connection; live tasks stay bounded under a request flood; non-trivial = hostile frames were injected with at least one port open; distinct = distinct case hash";
+pub const RULE: &str = "cases = (real Cfg, reference peer cfg/version, valid conversation prefix in C09's script language that always opens a port in each direction, local API state {listener dropped, client dropped, connect pending, send blocked on credits}, 1-3 hostile items out of 24 kinds: raw bytes, truncated messages, wrong-state messages, duplicates, unknown ports/codes, over-chunk, over-credit streams, credit overflow, request floods, oversized port batches); oracles = no panic anywhere (process panic hook), dispatcher either still runs and a fresh request + data echo works, or it ended with an error and every local send/recv/connect/accept/pending future completes with an error within 600 virtual s; over-credit data beyond receive_buffer + one chunk and more than connect_queue unanswered requests must terminate the connection; live tasks stay bounded under a request flood; non-trivial = at least one hostile item actually put frames on the wire while at least one port was open AND the run reached a verdict beyond 'no panic' (the dispatcher terminated and local users were checked, or it kept running and the fresh-request probe was executed); distinct = distinct case hash";
 
 pub fn main(tier: Tier, seed: u64) -> Report {
     let mut rep = Report::new("C08", tier, seed);
